@@ -117,6 +117,12 @@ func (j *jsonParser) Pull() (node.Node, bool, error) {
 	tok, err := j.jsonReader.Token()
 
 	if err != nil {
+		// The decoder reports a plain io.EOF at any token boundary, also
+		// inside an object or array that was never closed.
+		if err == io.EOF && len(j.stateStack) > 0 {
+			return nil, false, io.ErrUnexpectedEOF
+		}
+
 		return nil, false, err
 	}
 
